@@ -24,4 +24,24 @@ def runEth (seq : Nat) : List (List Nat) → Nat × List Nat
     | some s' => let r := runEth s' rest; (r.1, tx ++ r.2)
     | none => runEth seq rest
 
+/-- what can happen to one account between genesis and now: transactions of both routes, and anything else that
+    rewrites the stored account (`other newSeq`: conversion into a vesting account, a clawback, an upgrade handler, …) -/
+inductive Ev
+  | eth (nonces : List Nat)
+  | cos (txSeq : Nat) (chainOk intact : Bool)
+  | other (newSeq : Nat)
+
+/-- a mixed history: the sequence afterwards and the sequence numbers under which transactions were executed -/
+def runMixed (seq : Nat) : List Ev → Nat × List Nat
+  | [] => (seq, [])
+  | .eth ns :: rest =>
+    (match ethAccept seq ns with
+     | some s' => let r := runMixed s' rest; (r.1, ns ++ r.2)
+     | none => runMixed seq rest)
+  | .cos t c i :: rest =>
+    (match cosAccept seq t c i with
+     | some s' => let r := runMixed s' rest; (r.1, t :: r.2)
+     | none => runMixed seq rest)
+  | .other n :: rest => runMixed n rest
+
 end Haqq.Replay
